@@ -285,12 +285,25 @@ var catalogue = []mutation{
 		p := w.step.Plugins[rapid.IntRange(0, len(w.step.Plugins)-1).Draw(t, "i")]
 		before := pluginSem(p)
 		if cfgEmpty(p.Config) {
-			p.Config = map[string]any{"added" + mut: true}
+			if rapid.Bool().Draw(t, "tofalsy") {
+				p.Config = rapid.SampledFrom([]any{false, 0, ""}).Draw(t, "falsy")
+			} else {
+				p.Config = map[string]any{"added" + mut: true}
+			}
 			return true
 		}
 		nc, ok := mutateConfig(t, p.Config)
 		if !ok {
-			return false
+			// a scalar as the whole config: replace it by another scalar (false, 0 and "" are all
+			// different content, and different from having no config)
+			var cand []any
+			for _, x := range []any{false, 0, "", true, "y"} {
+				if x != p.Config {
+					cand = append(cand, x)
+				}
+			}
+			p.Config = rapid.SampledFrom(cand).Draw(t, "scalarcfg")
+			return true
 		}
 		p.Config = nc
 		return pluginSem(p) != before
